@@ -47,6 +47,7 @@ func genContinuation(t *rapid.T) FaultCase {
 		fc.Pos = 0
 	}
 	fc.Partial = rapid.SampledFrom([]int{0, 0, 1, 100, 2047, 32767}).Draw(t, "partial")
+	fc.Stagger = fc.Roots == 3 && rapid.Bool().Draw(t, "stagger")
 	fc.Prev = rapid.SampledFrom([]string{"absent", "value", "deleted"}).Draw(t, "prev")
 	fc.PrevLen = 3
 	if fc.Client == "inline-reader" || fc.Client == "ext-reader" || fc.Client == "inline-create" || fc.Client == "ext-create" {
